@@ -1,4 +1,5 @@
-// Package c11: for every Conn operation op1, every error code placed in op1's
+// Package c11: for every Conn operation op1, every error code (one at least of
+// every class error.go distinguishes, see TestCheck) placed in op1's
 // response, and every following operation op2: op1 returns the broker's error,
 // op2 behaves exactly as on a fresh connection, and no response byte is left
 // unread in between. For transport/framing faults instead: every later
@@ -23,9 +24,32 @@ import (
 func TestCheck(t *testing.T) {
 	s := seqx.New(t)
 	thorough := os.Getenv("VERIF_TIER") == "thorough"
-	codes := []int16{6, 1, 19, 3, 27}
+	// The error-code alphabet holds at least one code of every class the library itself distinguishes
+	// (error.go): Timeout() (RequestTimedOut 7, which is also Temporary()), Temporary() only (6, 19, 3, ...),
+	// neither (1, 27, 10, ...), the catch-all Unknown (-1), and codes the library has no name for (9999;
+	// thorough also the last named code 121, the first unnamed one 122, and the largest an int16 field holds).
+	codes := []int16{6, 1, 19, 3, 27, 7, 10, -1, 9999}
 	if thorough {
-		codes = []int16{6, 1, 19, 3, 27, 16, 25, 22, 7, 5, 29, 41, 15}
+		codes = []int16{6, 1, 19, 3, 27, 16, 25, 22, 7, 5, 29, 41, 15, 10, 2, -1, 9999, 121, 122, 32767}
+	}
+	classes := map[string]bool{}
+	for _, c := range codes {
+		e := kafka.Error(c)
+		switch {
+		case c == -1:
+			classes["unknown(-1)"] = true
+		case e.Title() == "" || e.Title() == kafka.Error(30000).Title():
+			classes["unnamed"] = true
+		case e.Timeout():
+			classes["timeout"] = true
+		case e.Temporary():
+			classes["temporary"] = true
+		default:
+			classes["permanent"] = true
+		}
+	}
+	if len(classes) != 5 {
+		t.Fatalf("the error-code alphabet %v does not cover every class of error.go: %v", codes, classes)
 	}
 	all := connops.Ops()
 
